@@ -24,7 +24,11 @@ type env struct {
 }
 
 func (vc *FuncVC) newEnv(cur, old *State, pos token.Pos) *env {
-	return &env{vc: vc, vars: map[string]Term{}, lazy: map[string]func(*State) Term{}, cur: cur, old: old, pos: pos}
+	e := &env{vc: vc, vars: map[string]Term{}, lazy: map[string]func(*State) Term{}, cur: cur, old: old, pos: pos}
+	for k, v := range vc.lets {
+		e.vars[k] = v
+	}
+	return e
 }
 
 func (e *env) st() *State {
@@ -519,7 +523,7 @@ func (vc *FuncVC) trIndex(e *env, n *EIndex) Term {
 			}
 		}
 		h := vc.get(e.st(), "A:"+es, "(Array Int (Array Int "+es+"))")
-		r := T(es, fmt.Sprintf("(select (select %s (s!arr %s)) (+ (s!off %s) %s))", h.S, x.S, x.S, i.S))
+		r := T(es, fmt.Sprintf("(select (select %s (s!arr %s)) %s)", h.S, x.S, ixTerm(sliceOff(x), i).S))
 		r.GoT = et
 		return r
 	case x.Sort == "String":
